@@ -530,8 +530,10 @@ def canon_block(block, in_loop=False, is_loop_body=False):
             st.body = canon_block(st.body, True, True)
             st.orelse = canon_block(st.orelse, in_loop)
         elif isinstance(st, ast.If):
-            st.body = canon_block(st.body, in_loop)
-            st.orelse = canon_block(st.orelse, in_loop)
+            # the branches of the last statement of a loop body end the round as well
+            tail = is_loop_body and st is block[-1]
+            st.body = canon_block(st.body, in_loop, tail)
+            st.orelse = canon_block(st.orelse, in_loop, tail)
             if st.orelse and _is_negative(st.test) and not (
                     len(st.orelse) == 1 and isinstance(st.orelse[0], ast.If)):
                 st.test, st.body, st.orelse = negate(st.test), st.orelse, st.body
@@ -695,6 +697,14 @@ def _helper_kind(fn):
         return "proc", body
     if isinstance(body[-1], ast.Return) and body[-1].value is not None and len(rets) == 1:
         return "tail", body      # arbitrary statements, then the only return
+    if rets and all(r.value is None or (isinstance(r.value, ast.Constant)
+                                        and r.value.value is None) for r in rets):
+        # a procedure with early exits: the guards take what follows as their else branch and
+        # the bare returns, then all last on their path, are dropped
+        norm = _strip_tail_returns(_returns_to_tail(copy.deepcopy(body)))
+        if not _has_return(norm):
+            return "proc", norm
+        return None, body
     if rets and all(r.value is not None for r in rets):
         # several returns, each the last thing done on its path: the statement containing
         # the call is carried to every return
@@ -783,6 +793,21 @@ def _returns_to_tail(block):
                 return out
         out.append(st)
     return out
+
+
+def _strip_tail_returns(block):
+    """drop the bare returns that are the last action of their path"""
+    if not block:
+        return block
+    st = block[-1]
+    if isinstance(st, ast.Return) and (st.value is None or (
+            isinstance(st.value, ast.Constant) and st.value.value is None)):
+        block = block[:-1] or [ast.copy_location(ast.Pass(), st)]
+    elif isinstance(st, ast.If):
+        st.body = _strip_tail_returns(st.body)
+        if st.orelse:
+            st.orelse = _strip_tail_returns(st.orelse)
+    return block
 
 
 def _tail_ok(block):
@@ -1008,6 +1033,14 @@ class _Inliner:
             self.tree.body = self.block(self.tree.body)
             if not self.changed:
                 break
+            # a helper that had a helper inlined into it has a new body (hoisted temporaries)
+            for name, (fn, _k, _b, ism) in list(self.helpers.items()):
+                k, b = _helper_kind(fn)
+                if k:
+                    self.helpers[name] = (fn, k, b, ism)
+                else:
+                    self._stale = getattr(self, "_stale", set()) | {name}
+                    del self.helpers[name]
         # drop helpers that are no longer referenced
         names = {n.id for n in ast.walk(self.tree) if isinstance(n, ast.Name)} | \
                 {n.attr for n in ast.walk(self.tree) if isinstance(n, ast.Attribute)}
@@ -1016,7 +1049,9 @@ class _Inliner:
                 and isinstance(n.value, str)}
 
         def keep(node):
-            return not (isinstance(node, ast.FunctionDef) and node.name in self.helpers
+            return not (isinstance(node, ast.FunctionDef)
+                        and (node.name in self.helpers
+                             or node.name in getattr(self, "_stale", ()))
                         and node.name not in names and node.name not in strs)
         self.tree.body = [n for n in self.tree.body if keep(n)]
         for node in self.tree.body:
@@ -1045,6 +1080,15 @@ class _Inliner:
                 b = getattr(st, field, None)
                 if isinstance(b, list) and b and isinstance(b[0], ast.stmt):
                     setattr(st, field, self.block(b))
+            if isinstance(st, ast.FunctionDef) and st.name in self.helpers \
+                    and self.helpers[st.name][0] is st:
+                # a helper was inlined into this helper: its table entry follows its new body
+                k, b = _helper_kind(st)
+                if k:
+                    self.helpers[st.name] = (st, k, b, self.helpers[st.name][3])
+                else:
+                    self._stale = getattr(self, "_stale", set()) | {st.name}
+                    del self.helpers[st.name]
             if isinstance(st, ast.Try):
                 for h in st.handlers:
                     h.body = self.block(h.body)
@@ -2512,11 +2556,80 @@ def std_spellings(tree):
     return tree
 
 
+def next_to_loop(tree):
+    """`x = next(G, None)` followed by `if x is not None: B` (x not used afterwards) is the
+    loop `for x in G: B; break` -- the body runs once, for the first element, or not at all.
+    B ending in return/raise needs no break.  Exposes a search written with a lazy generator
+    to the passes (and rules) that read loops."""
+    def names_loaded(stmts, name):
+        return any(isinstance(n, ast.Name) and n.id == name for st in stmts
+                   for n in ast.walk(st))
+
+    def rewrite(block):
+        out, i = [], 0
+        while i < len(block):
+            st = block[i]
+            nxt = block[i + 1] if i + 1 < len(block) else None
+            if isinstance(st, ast.Assign) and len(st.targets) == 1 \
+                    and isinstance(st.targets[0], ast.Name) \
+                    and isinstance(st.value, ast.Call) and isinstance(st.value.func, ast.Name) \
+                    and st.value.func.id == "next" and len(st.value.args) == 2 \
+                    and not st.value.keywords \
+                    and isinstance(st.value.args[1], ast.Constant) \
+                    and st.value.args[1].value is None \
+                    and isinstance(st.value.args[0], (ast.Call, ast.GeneratorExp)) \
+                    and isinstance(nxt, ast.If) and isinstance(nxt.test, ast.Compare) \
+                    and len(nxt.test.ops) == 1 and isinstance(nxt.test.left, ast.Name) \
+                    and nxt.test.left.id == st.targets[0].id \
+                    and isinstance(nxt.test.comparators[0], ast.Constant) \
+                    and nxt.test.comparators[0].value is None \
+                    and isinstance(nxt.test.ops[0], (ast.IsNot, ast.Is)):
+                x = st.targets[0].id
+                found, missing = (nxt.body, nxt.orelse) if isinstance(
+                    nxt.test.ops[0], ast.IsNot) else (nxt.orelse, nxt.body)
+                if found and not any(isinstance(j, (ast.Break, ast.Continue))
+                                     for f_ in found for j in ast.walk(f_)) \
+                        and not names_loaded(block[i + 2:], x) \
+                        and not names_loaded(missing, x) \
+                        and (not missing or _always_jumps(found)):
+                    body = list(found)
+                    if not _always_jumps(body):
+                        body.append(ast.Break())
+                    gen = st.value.args[0]
+                    if isinstance(gen, ast.GeneratorExp) and len(gen.generators) == 1 \
+                            and not gen.generators[0].is_async:
+                        g = gen.generators[0]
+                        inner = [ast.Assign(targets=[ast.Name(id=x, ctx=ast.Store())],
+                                            value=gen.elt)] + body
+                        for c in reversed(g.ifs):
+                            inner = [ast.If(test=c, body=inner, orelse=[])]
+                        loop = ast.For(target=g.target, iter=g.iter, body=inner, orelse=[])
+                    else:
+                        loop = ast.For(target=ast.Name(id=x, ctx=ast.Store()), iter=gen,
+                                       body=body, orelse=[])
+                    loop.orelse = list(missing)
+                    ast.copy_location(loop, st)
+                    out.append(loop)
+                    i += 2
+                    continue
+            out.append(st)
+            i += 1
+        return out
+    for n in ast.walk(tree):
+        for field in ("body", "orelse", "finalbody"):
+            blk = getattr(n, field, None)
+            if isinstance(blk, list) and blk and isinstance(blk[0], ast.stmt):
+                setattr(n, field, rewrite(blk))
+    ast.fix_missing_locations(tree)
+    return tree
+
+
 def canonicalise(tree, sigs=None, pkg_methods=None):
     for n in ast.walk(tree):
         if hasattr(n, "lineno"):
             n.__dict__["_src_line"] = n.lineno
     tree = std_spellings(tree)
+    tree = next_to_loop(tree)
     tree = module_constants(tree)
     if sigs:
         tree = _KwToPos(sigs).visit(tree)
